@@ -37,12 +37,12 @@ def gen_cases(rng, tier):
         if bad_digit:
             j = rng.randrange(nd); val = val[:j] + rng.choice({'hex': 'gxz-', 'oct': '89a', 'bin': '2a9'}[k]) + val[j + 1:]
         stated = nd + rng.choice([0, 0, 1, -1, 3]) if k == 'bytes' else w * nd + rng.choice([0, 0, 0, w, -w, 1, 2])
-        yield {'op': 'token_len', 'kind': k, 'val': val, 'stated': stated, 'bad_digit': bad_digit, 'route': rng.choice(['token', 'pack', 'build', 'kw_len']), 'cls': rng.choice(CLASSES)}
+        yield {'op': 'token_len', 'kind': k, 'val': val, 'stated': stated, 'bad_digit': bad_digit, 'route': rng.choice(['token', 'pack', 'build', 'kw_len', 'kw_name']), 'cls': rng.choice(CLASSES)}
 
     # a stated length of zero with a non-empty value (the only stated length for which `if length:` and `if length is not None:` differ)
     for k, vals in (('hex', ['a', 'ff']), ('oct', ['7']), ('bin', ['1', '01']), ('bytes', ['a']), ('bits', ['1'])):
         for val in vals:
-            for route in ('token', 'pack', 'build', 'kw_len'):
+            for route in ('token', 'pack', 'build', 'kw_len', 'kw_name'):
                 yield {'op': 'token_len', 'kind': k, 'val': val, 'stated': 0, 'bad_digit': False, 'route': route, 'cls': rng.choice(CLASSES)}
     # offset / length windows beyond the supplied bytes, bytearray, bitarray, BytesIO, file name or file handle (cases, runner and oracle of C17)
     import random as _random
@@ -115,6 +115,9 @@ def run_impl(c):
             if r == 'kw_len':
                 if k in ('bytes',): return pack(f'bytes:{st}', v).bin
                 return C(**{k: v, 'length': st}).bin
+            if r == 'kw_name':          # the length is part of the keyword: hex8='ff'
+                if st < 0: return pack(f'{k}:{st}', v).bin
+                return C(**{f'{k}{st}': v}).bin
         return attempt(f)
 
 def allowed_len(name, n):
